@@ -163,7 +163,12 @@ impl<'a, Version: VersionTrait, Purpose: PurposeTrait> Paseto<'a, Version, Purpo
                     return Err(PasetoError::FooterInvalid);
                 }
             }
-            _ => {}
+            _ => {
+                //no footer segment in the token: only an absent or empty expected footer can match
+                if !footer.into().unwrap_or_default().is_empty() {
+                    return Err(PasetoError::FooterInvalid);
+                }
+            }
         }
 
         //grab the header
